@@ -587,6 +587,18 @@ class Slicer:
 
     # internals ---------------------------------------------------------
     def _const(self, c):
+        if isinstance(c.get("promoted"), int) and not isinstance(c.get("promoted"), bool):
+            pr = self.b.rec.get("promoted") or []
+            i = c["promoted"]
+            if i < len(pr):
+                key = ("promoted", i)
+                if key not in self.memo:
+                    rec = {"id": f"{self.b.id}::promoted[{i}]", "root": self.b.root, "file": self.b.file,
+                           "blocks": pr[i]["blocks"], "locals": pr[i]["locals"], "names": {}, "argc": 0,
+                           "promoted": pr}
+                    self.memo[key] = ("cycle",)
+                    self.memo[key] = Slicer(self.F, Body(rec), cross_closure=False).local(0)
+                return self.memo[key]
         if "fn" in c:
             return ("fnconst", c["fn"])
         if "closure" in c:
